@@ -150,6 +150,14 @@ def run(ctx):
             if c["tags"]:
                 rec = c
                 break
+        obl_names = sorted(set(o for _, o, _ in shown)) or [obligation]
+        if not rec["tags"]:
+            # failures of the position-level probes belong to the bisection functions, whatever ran before
+            for o in obl_names:
+                if o.startswith("bisect_near") or o == "bisect":
+                    rec = {"site": "CO_Tree::bisect_near", "tags": []}
+                elif o.startswith("bisect_in"):
+                    rec = {"site": "CO_Tree::bisect_in", "tags": []}
         key = (rec["site"], obligation if want_model_only else "property")
         if key in reported:
             return
